@@ -5,6 +5,7 @@ import hashlib, os, random, re
 from concurrent.futures import ThreadPoolExecutor
 import vlib
 
+NT_QUERIES = True   # k2erase switches this off: any_sender_of's erased queries are declared noexcept
 UN = ["then", "uerr", "udone", "withq", "unstop", "mat", "dopt"]
 BIN = ["letv", "lete", "letd", "seq", "fin", "wall", "swhen"]
 
@@ -97,7 +98,7 @@ def to_cpp(e, bound=()):
     if k == "uerr": return "k2::uerr(%s, %s)" % (to_cpp(e[2], bound), cpp_fn(e[1]))
     if k == "udone": return "k2::udone(%s, %s)" % (to_cpp(e[2], bound), cpp_fn(e[1]))
     if k == "withq":
-        if e[2] % 3 == 0:   # a third of them: the harness look-alike whose query customisation is not noexcept
+        if NT_QUERIES and e[2] % 3 == 0:   # a third of them: the harness look-alike whose query customisation is not noexcept
             return "k2::withq_nt<%d>(%s, %d)" % (e[1], to_cpp(e[3], bound), e[2])
         return "unifex::with_query_value(%s, k2::get_q%d, %d)" % (to_cpp(e[3], bound), e[1], e[2])
     if k == "unstop": return "unifex::unstoppable(%s)" % to_cpp(e[1], bound)
